@@ -316,7 +316,7 @@ PROPS["C02"] = {
     "groups": [
         {"id": "shapes",
          "quick": ["c02::c02_args_slices", "c02::c02_args_mutable", "c02::c02_args_values", "c02::c02_args_callback_iterator",
-                   "c02::c02_returns", "c02::c02_boxed_object", "c02::c02_npo_options", "c02::c02_negative_twin",
+                   "c02::c02_returns", "c02::c02_boxed_object", "c02::c02_npo_options", "c02::c02_narrow_options_and_zst_mut_slices", "c02::c02_negative_twin",
                    # integer-coded results with an io::Error payload (every i32 OS code) - shared with C13
                    "c13e::c13e_io_codes", "c13e::c13e_roundtrip"],
          "timeout": 1800},
@@ -411,6 +411,7 @@ PROPS["C08"] = {
     "groups": [
         {"id": "casts",
          "quick": ["c08::c08_g3_box", "c08::c08_g3_mut", "c08::c08_ref_container", "c08::c08_impl_types_g3", "c08::c08_aliased_generic_members",
+                   "c08::c08_owned_list_of_four_argument_registration",
                    "c08::c08_negative_twin"],
          "thorough_adds": ["c08::c08_g4_box", "c08::c08_g4_mut"],
          "timeout": 3000},
